@@ -190,10 +190,6 @@ func c18BuildFixture(e *c18Env) error {
 		c18Id(1): {"a": int64(1), "b": map[string]any{"c": "x"}}, c18Id(2): {"a": "two"}}); err != nil {
 		return err
 	}
-	if err := e.create("alice", "pqbad", models.IndexSchema{"vec": {Type: "vectorFlat", VectorFlat: &models.IndexVectorFlatParameters{
-		VectorSize: 5, DistanceMetric: "euclidean", Quantizer: &models.Quantizer{Type: "product", Product: &models.ProductQuantizerParameters{NumCentroids: 4, NumSubVectors: 2, TriggerThreshold: 1000}}}}}, nil); err != nil {
-		return err
-	}
 	wide := make([]float32, 4096)
 	for i := range wide {
 		wide[i] = float32(i%7) - 3
